@@ -140,7 +140,9 @@ func c10check(hole, board []string, req int, table []combination.Combination, tn
 		return &c10fail{hole, board, req, tname, "UpdateCombinationOfAllPlayers fails: " + err.Error()}
 	}
 	ci := gs.Players[0].Combination
-	mk := func(msg string, a ...interface{}) *c10fail { return &c10fail{hole, board, req, tname, fmt.Sprintf(msg, a...)} }
+	mk := func(msg string, a ...interface{}) *c10fail {
+		return &c10fail{hole, board, req, tname, fmt.Sprintf(msg, a...)}
+	}
 	if len(ci.Cards) != 5 {
 		return mk("reported hand has %d cards", len(ci.Cards))
 	}
